@@ -1833,6 +1833,102 @@ theorem stitch_source_open (dfs : List TS) (ubs : List Int) (hlen : dfs.length =
       simp [ubOk]
       cases u <;> simp <;> omega
 
+/-- **unslice_open_eq** - `df_unslice(F, [u_0 .. u_{k-1}, None])` is `df_unslice(F, [u_0 .. u_{k-1}, M])` for any `M` beyond every
+    row of the frame (and above the other bounds), with the key `M` read as `None`: same series, same ORDER - the unbounded
+    series is filed under `None` in the LAST place (repo fix C13-U2; `listby` used to sort `None` first) -/
+theorem unslice_open_eq (F : Frame) (ubs : List Int) (M : Int) (hM : ∀ r ∈ F.rows, r.1 < M) (hne : ubs ≠ [])
+    (hstrict : (ubs ++ [M]).Pairwise (· < ·)) (hpos : 0 < F.width) :
+    unsliceO F (ubs.map some ++ [Option.none]) =
+      (unslice F (ubs ++ [M])).map (List.map fun p => (reopen M p.1, p.2)) := by
+  have hMu : M ∉ ubs := fun hm => by
+    have := (List.pairwise_append.mp hstrict).2.2 M hm M (by simp); omega
+  have hinc' : nonDecreasing (ubs ++ [M]) = true := pairwise_nonDecreasing _ (hstrict.imp (fun h => Int.le_of_lt h))
+  have hinc : nonDecreasing ubs = true :=
+    pairwise_nonDecreasing _ (List.pairwise_append.mp (nonDecreasing_pairwise _ hinc')).1
+  have hnd : ((ubs ++ [M]).map (reopen M)).Nodup :=
+    List.Pairwise.map (reopen M) (fun a b hab e => hab (reopen_inj M e)) (hstrict.imp (fun h => Int.ne_of_lt h))
+  rw [unslice_eq F _ hinc', unslice_keys F _ hstrict hpos]
+  simp only [unsliceO, directionO_open ubs hne, hinc, if_true, handedO_open F ubs M hM hMu, bind, Except.bind, pure,
+    Except.pure, Except.map]
+  rw [← map_reopen M ubs hMu, eraseDups_of_nodup _ hnd, List.map_map, List.map_map]
+  congr 1
+  apply List.map_congr_left
+  intro u _
+  simp only [Function.comp, filter_reopen]
+
+/-- **unslice_restitch_open** - the round trip under an UNBOUNDED last bound, ANY values: for `k ≥ 1` strictly increasing
+    dates followed by `None` and `k + 1` proper series, `df_unslice` returns one series per bound IN THE ORDER OF THE BOUNDS
+    (the unbounded one last, under `None`), and `df_slice(list(U.values()), ub = ub, n)` reproduces the stitched frame up to its
+    all-NaN rows (exactly, when it has none: `unslice_restitch_iff`'s argument).  Review v4 2.1 / repo fix C13-U2. -/
+theorem unslice_restitch_open (dfs : List TS) (ubs : List Int) (hlen : dfs.length = ubs.length + 1) (hne : ubs ≠ [])
+    (hstrict : ubs.Pairwise (· < ·)) (hs : ∀ s ∈ dfs, s.Sorted) (n : Nat) :
+    ∃ F U, stitchO dfs Option.none (some (ubs.map some ++ [Option.none])) (some ['(', ']']) n = .ok (some F) ∧
+      unsliceO F (ubs.map some ++ [Option.none]) = .ok U ∧
+      U.map (·.1) = ubs.map some ++ [Option.none] ∧
+      stitchO (U.map (·.2)) Option.none (some (ubs.map some ++ [Option.none])) (some ['(', ']']) n = .ok (some F.dropNaRows) := by
+  obtain ⟨M, hM⟩ := exists_beyond (dfs.flatMap TS.index ++ ubs)
+  have hM1 : ∀ s ∈ dfs, ∀ t ∈ s.index, t < M := fun s hs t ht =>
+    hM t (List.mem_append_left _ (List.mem_flatMap.mpr ⟨s, hs, ht⟩))
+  have hM2 : ∀ b ∈ ubs, b < M := fun b hb' => hM b (List.mem_append_right _ hb')
+  have hstrict' : (ubs ++ [M]).Pairwise (· < ·) := by
+    rw [List.pairwise_append]
+    refine ⟨hstrict, by simp, ?_⟩
+    intro a ha b hb'
+    rw [List.mem_singleton] at hb'; subst hb'; exact hM2 a ha
+  have htwo : 2 ≤ (ubs ++ [M]).length := by
+    cases ubs with
+    | nil => exact absurd rfl hne
+    | cons a t => simp
+  have hS : Stitchable dfs (ubs ++ [M]) :=
+    ⟨by simp [hlen], htwo, pairwise_nonDecreasing _ (hstrict'.imp (fun h => Int.le_of_lt h))⟩
+  obtain ⟨F, U', e1, e2, e3, e4⟩ := unslice_restitch_exact dfs (ubs ++ [M]) hS hstrict' hs n
+  -- every row of the stitched frame carries a timestamp of one of the series
+  have hFrows : ∀ r ∈ F.rows, r.1 < M := by
+    obtain ⟨F', hF', hrows⟩ := stitch_eq dfs (ubs ++ [M]) hS (some ['(', ']']) n false true rfl
+    rw [e1] at hF'; cases hF'
+    intro r hr
+    rw [hrows] at hr
+    simp only [List.mem_flatMap, List.mem_map] at hr
+    obtain ⟨f, hf, r', hr', rfl⟩ := hr
+    simp only [pieces, List.mem_map] at hf
+    obtain ⟨x, hx, rfl⟩ := hf
+    have hx1 : x.1 ∈ framesOf dfs n := (List.of_mem_zip hx).1
+    simp only [cut, List.mem_filter] at hr'
+    exact framesOf_rows_lt dfs n M hM1 _ hx1 r' hr'.1
+  have hpos : 0 < F.width := by
+    rcases Nat.eq_zero_or_pos F.width with h0 | h
+    · exfalso
+      have hr : rsOf F (ubs ++ [M]) = [] := by simp [rsOf, h0]
+      rw [unslice_eq F _ hS.inc, hr] at e2
+      cases e2
+      simp at e3
+    · exact h
+  have hU : unsliceO F (ubs.map some ++ [Option.none]) = .ok (U'.map fun p => (reopen M p.1, p.2)) := by
+    rw [unslice_open_eq F ubs M hFrows hne hstrict' hpos, e2]; rfl
+  have hMu : M ∉ ubs := fun hm => by have := hM2 M hm; omega
+  have hsnd : (U'.map fun p => (reopen M p.1, p.2)).map (·.2) = U'.map (·.2) := by
+    rw [List.map_map]; rfl
+  have hfst : (U'.map fun p => (reopen M p.1, p.2)).map (·.1) = ubs.map some ++ [Option.none] := by
+    rw [List.map_map, ← map_reopen M ubs hMu, ← e3, List.map_map]; rfl
+  refine ⟨F, _, ?_, hU, hfst, ?_⟩
+  · rw [stitch_open_eq dfs ubs M hS hM1 _ n false true rfl, e1]
+  · rw [hsnd]
+    -- the recovered series hold timestamps of the frame only
+    have hU'len : (U'.map (·.2)).length = (ubs ++ [M]).length := by rw [← e3]; simp
+    have hS' : Stitchable (U'.map (·.2)) (ubs ++ [M]) := ⟨hU'len, htwo, hS.inc⟩
+    have hM' : ∀ s ∈ U'.map (·.2), ∀ t ∈ s.index, t < M := by
+      intro s hs' t ht
+      rw [unslice_eq F _ hS.inc, unslice_keys F _ hstrict' hpos] at e2
+      cases e2
+      simp only [List.map_map, List.mem_map, Function.comp] at hs'
+      obtain ⟨u, _, rfl⟩ := hs'
+      simp only [TS.index, Slice.nona, List.mem_map, List.mem_filter, List.mem_flatMap] at ht
+      obtain ⟨p, ⟨⟨c, ⟨hc, _⟩, hp⟩, _⟩, rfl⟩ := ht
+      obtain ⟨r, hr, hrt⟩ := rsOf_index_sub F _ c.1 c.2 hc p.1
+        (by simp only [TS.index, List.mem_map]; exact ⟨p, hp, rfl⟩)
+      rw [← hrt]; exact hFrows r hr
+    rw [stitch_open_eq _ ubs M hS' hM' _ n false true rfl, e4]
+
 /-- the reviewer's input (v4 2.1): three series, bounds `[2, 4, None]`; the extended model stitches 7 rows, `df_unslice` files the
     unbounded series LAST (keys in the order of the bounds) and the re-stitch reproduces the frame; the decreasing spelling too -/
 def openSeries : List TS := [[(0, some 1), (1, some 2), (2, some 3), (3, some 4)], [(2, some 10), (3, some 20), (4, some 30), (5, some 40)],
